@@ -225,3 +225,36 @@ Example C02_convergence_nonvacuous :
   (forall c a, In c cells -> In a (active_axes ROps exR) ->
      nb_homog cells (fun c => (x c - exf (exxi c))%R) c (cdn a c) /\ nb_homog cells (fun c => (x c - exf (exxi c))%R) c (cup a c)).
 Proof. exact convergence_hyps_satisfiable. Qed.
+
+(* ---- consistency of the ADVECTION stencil for arbitrary C3 functions (Theory/Taylor1Thy.v): the Taylor remainder of the central
+   first difference, and its form for the model's central convection stencil (convectionTerm) with constant face velocity on a
+   uniform Cartesian axis:  | stencil - u f'(xi) | <= |u| max|f'''| h^2 / 6. ---- *)
+From PFV Require Import Taylor1Thy.
+Theorem C02_taylor_central_difference : forall f : R -> R, (forall t k, (k <= 3)%nat -> ex_derive_n f k t) ->
+  forall x h M : R, (0 < h)%R ->
+  (forall t, (x - h < t < x + h)%R -> (Rabs (Derive_n f 3 t) <= M)%R) ->
+  (Rabs ((f (x + h) - f (x - h)) / (2 * h) - Derive_n f 1 x) <= M * (h * h) / 6)%R.
+Proof. exact central_difference_remainder. Qed.
+Print Assumptions C02_taylor_central_difference.
+Theorem C02_taylor_central_cartesian_axis : forall (f : R -> R) (m : Mesh ROps) (a : axis) (c : cell) (h xi uc M : R) (u : fvar ROps) (x : cvar ROps),
+  (forall t k, (k <= 3)%nat -> ex_derive_n f k t) ->
+  (0 < h)%R ->
+  mfac ROps m a c = 1%R -> mA ROps m a (cidx a c) = 1%R -> mA ROps m a (pred (cidx a c)) = 1%R -> mW ROps m a (cidx a c) = h ->
+  mDX ROps m a (cidx a c) = h /\ mDX ROps m a (S (cidx a c)) = h /\ mDX ROps m a (pred (cidx a c)) = h ->
+  u a c = uc /\ u a (cdn a c) = uc ->
+  x (cdn a c) = f (xi - h)%R /\ x c = f xi /\ x (cup a c) = f (xi + h)%R ->
+  (forall t, (xi - h < t < xi + h)%R -> (Rabs (Derive_n f 3 t) <= M)%R) ->
+  (Rabs (apply_axis ROps (cenAW ROps m u) (cenAP ROps m u) (cenAE ROps m u) x a c - uc * Derive_n f 1 xi)
+   <= Rabs uc * (M * (h * h) / 6))%R.
+Proof. exact taylor_central_cartesian_axis. Qed.
+Print Assumptions C02_taylor_central_cartesian_axis.
+(* non-vacuity, and the constant is sharp: for f = x^3 (f''' = 6) the remainder is exactly h^2 = 6 h^2 / 6 *)
+Example C02_taylor_central_nonvacuous : forall x h : R, (0 < h)%R ->
+  (Rabs (((x + h) ^ 3 - (x - h) ^ 3) / (2 * h) - Derive_n (fun t => t ^ 3) 1 x) <= 6 * (h * h) / 6)%R.
+Proof.
+  intros x h Hh. apply (C02_taylor_central_difference (fun t => t ^ 3)%R); [|exact Hh|].
+  - intros t k _. apply ex_derive_n_pow.
+  - intros t _. rewrite Derive_n_pow_smalli by apply le_n. rewrite Nat.sub_diag. simpl.
+    replace ((1 + 1 + 1) * ((1 + 1) * 1) / 1 * 1)%R with 6%R by field.
+    rewrite Rabs_pos_eq by lra. lra.
+Qed.
